@@ -5,6 +5,7 @@ package main
 
 import (
 	"fmt"
+	"regexp"
 	"go/token"
 	"go/types"
 	"os"
@@ -156,8 +157,13 @@ func fname(fn *ssa.Function) string {
 	}
 	s := fn.String()
 	s = strings.ReplaceAll(s, modPath+"/", "")
-	return s
+	// closures are numbered in source order ($1, $2 ...): adding an unrelated closure renumbers the later ones, so
+	// names used in keys, tables and the known-findings file say `$c` for "a closure of"; the position that is
+	// reported with every obligation tells which one
+	return closureIndex.ReplaceAllString(s, "$$c")
 }
+
+var closureIndex = regexp.MustCompile(`\$[0-9]+`)
 
 func (w *World) Pkg(rel string) *packages.Package {
 	p := w.ByRel[rel]
